@@ -150,6 +150,36 @@ func c09(r *rt.Run) {
 	for _, u := range U {
 		constCase(u.C, "structured")
 	}
+	// (d2) every container position x every leaf whose printed form needs care: what is printed for a value must not
+	// depend on where in a list, pair, map or struct it stands
+	{
+		one, two, three := ast.Number(1), ast.Number(2), ast.Number(3)
+		ka, kb, kc := name2("/a"), name2("/b"), name2("/c")
+		T := []ast.Constant{ast.String("\""), ast.String("\\"), ast.String("a\"b\\c"), ast.String("é\n\t"), ast.String("x\ry"), ast.Bytes([]byte{'"'}), ast.Bytes([]byte{0x80, '\\'}),
+			ast.Time(1), ast.Time(1700000000000000000), ast.Duration(1500), ast.Duration(-90000000000), ast.Number(-1), ast.Float64(-1.5), ast.Float64(2),
+			ast.List([]ast.Constant{ast.Number(-1)}), ast.List([]ast.Constant{ast.Float64(-1.5), two}), name2("/a"), ast.String("/a"), ast.String("1"), ast.ListNil, ast.MapNil, ast.StructNil}
+		for _, x := range T {
+			for _, y := range T {
+				x, y := x, y
+				constCase(ast.List([]ast.Constant{x, y}), "container-position")
+				constCase(ast.List([]ast.Constant{one, x, y}), "container-position")
+				constCase(ast.Pair(&x, &y), "container-position")
+				inner := ast.Pair(&y, &x)
+				constCase(ast.Pair(&x, &inner), "container-position")
+				constCase(*ast.Map(map[*ast.Constant]*ast.Constant{&one: &x, &two: &y}), "container-position")
+				constCase(*ast.Map(map[*ast.Constant]*ast.Constant{&one: &x, &two: &y, &three: &x}), "container-position")
+				if !x.Equals(y) {
+					constCase(*ast.Map(map[*ast.Constant]*ast.Constant{&x: &one, &y: &two}), "container-position")
+				}
+				constCase(*ast.Struct(map[*ast.Constant]*ast.Constant{&ka: &x, &kb: &y}), "container-position")
+				constCase(*ast.Struct(map[*ast.Constant]*ast.Constant{&ka: &x, &kb: &y, &kc: &x}), "container-position")
+				lx, ly := ast.List([]ast.Constant{x}), ast.List([]ast.Constant{y})
+				constCase(ast.List([]ast.Constant{lx, ly}), "container-position")
+				lxy := ast.List([]ast.Constant{x, y})
+				constCase(*ast.Struct(map[*ast.Constant]*ast.Constant{&ka: &one, &kb: &lxy}), "container-position")
+			}
+		}
+	}
 	// names over every permitted character
 	for _, ch := range "azAZ09.-_~%" {
 		for _, ch2 := range "a.%-~_5" {
@@ -214,7 +244,7 @@ func c09(r *rt.Run) {
 	ast.SetDefaultTimezone(time.UTC)
 	c09Zone = ""
 	r.Extra["distinct_nontrivial"] = r.Get("states")
-	r.Finish("every family that can carry an instant repeated under 3 non-UTC default timezones (fixed +05:30, -08:00, America/New_York); strings: every single ASCII byte, all 2-strings over 15 critical characters, 3-strings over 7; bytes: every single byte, all pairs over 11; boundary ints/floats/times/durations; the structured constant universe; atoms; " +
+	r.Finish("every family that can carry an instant repeated under 3 non-UTC default timezones (fixed +05:30, -08:00, America/New_York); strings: every single ASCII byte, all 2-strings over 15 critical characters, 3-strings over 7; bytes: every single byte, all pairs over 11; boundary ints/floats/times/durations; the structured constant universe; every ordered pair of 22 leaves that need care when printed in 11 container positions (list, pair, nested pair, map value, map key, struct field first / later / third, nested list, list inside a struct); atoms; " +
 		"every clause of the C04 space that parses plus temporal clauses (head annotations x operators x bounds); type expressions as bound declarations; each printed, parsed back and compared (constants after evaluation)")
 }
 
